@@ -38,6 +38,7 @@ def cases(draw, tier="quick"):
         case["enabled_only"] = sorted(draw(st.sets(st.integers(0, n - 1), min_size=max(1, n - 3), max_size=n)))
     if mode == "apply_configs_prefix":
         case["prefix_cut"] = draw(st.integers(1, 3))
+    case["pre_eval"] = draw(st.sampled_from([False, False, True]))
     return case
 
 
@@ -89,6 +90,12 @@ def check(case):
     saved_items = dict(saved_enabled)
     b = dyn.build(case)
     try:
+        if case.get("pre_eval"):
+            # a long-lived process: the components were already evaluated once under the default
+            # settings before the enabled/disabled configuration is applied
+            dyn.execute(dict(case, disabled=[], seeded=[]), b, {"kind": "run_full"})
+            b.log[:] = []
+            b.raised.clear()
         eff_disabled = apply_enable(case, b)
         run_case = dict(case)
         if case.get("enable_mode", "set_enabled") != "set_enabled":
